@@ -397,8 +397,10 @@ def m_abs(ctx):
     elif name == "wrapping_abs" and D.contains(S.ivof(a), rng[0]):
         ex = D.join(D.meet(ex, D.rng(0, rng[1])), D.point(rng[0]))
     v = ctx.fresh("abs", out_rng, ex)
-    if not D.contains(S.ivof(a), rng[0]):
-        S.absd[v] = a  # |a| in X  =>  a in X ∪ -X
+    if name in ("abs", "unsigned_abs") or not D.contains(S.ivof(a), rng[0]):
+        # |a| in X  =>  a in X ∪ -X  (exact for abs after its precondition and for unsigned_abs, whose result holds
+        # 2^(n-1) for MIN; saturating/wrapping variants only when MIN is excluded)
+        S.absd[v] = a
     return Scalar(v)
 
 
@@ -1347,3 +1349,8 @@ def m_is_some_and(ctx):
         return lambda c, payload: Scalar(c.I.const_sym(v, (0, 1), c.S))
 
     return _route(ctx, _callf(1), const_bool(1 if neg else 0), kind)
+
+
+@M.reg_re(r"^core::cmp::Ordering::(is_eq|is_ne|is_lt|is_gt|is_le|is_ge|reverse)$")
+def m_ordering_pred(ctx):
+    return ctx.top_ret() if ctx.r["def"].endswith("reverse") else bool_top(ctx)
